@@ -253,5 +253,5 @@ func checkC14(c genCase) pbt.Result {
 }
 
 func TestC14Builds(t *testing.T) {
-	pbt.Run(t, "generate-and-build", pbt.Scale(24, 1200), genGenCase, checkC14)
+	pbt.Run(t, "generate-and-build", pbt.Scale(24, 640), genGenCase, checkC14) // about 25 s per generated-and-built schema and shard
 }
